@@ -238,8 +238,8 @@ def merge(O, N, path=(), strict_domain=False):
     if O.kind == 'seq':
         # newer deleting nodes that are outranked by what the list already holds are dropped first
         drop_outranked(O, N, ())
+    removed = set()
     if N.dele:
-        removed = set()
         filt(O, lambda rel, e: e.prio > nearest(N, rel).prio, removed=removed)
         if not O.ch and N.prio >= O.prio:
             require_all_new(N, path, exceptions={path + r for r in removed} | {path})
@@ -250,7 +250,8 @@ def merge(O, N, path=(), strict_domain=False):
         if child is None:
             if strict_domain and v.vdel:
                 raise OutOfDomain('value-less !del aimed at a key that does not exist')
-            require_all_new(v, path + (k,))
+            # (what the deleting N has just removed from O did exist: writing it again creates no path)
+            require_all_new(v, path + (k,), exceptions={path + r for r in removed})
             if O.kind == 'map':
                 O.ch[k] = v
             else:
@@ -373,6 +374,11 @@ def premerge(acc, n, path=()):
             tgt = remove_at(acc, parse_path(c.v))
             if tgt is None:
                 raise ModelError('PremergeError', f'!prev {c.v!r}: no such node', here)
+            dest = lookup(acc, here)
+            if dest is not None and dest.composed() and tgt.composed():
+                # "places the entire previous subtree of p at q": the statement is silent on whether content that q already holds is
+                # kept (the library merges a subtree taken from a mapping and replaces with one taken out of a list)
+                raise OutOfDomain('!prev onto a destination that already holds a container')
             reinherit(tgt, cdel, cnew)
             n.ch[k] = tgt
         elif c.kind == 'append':
